@@ -605,6 +605,9 @@ class Explorer(object):
                 return {ast.Lt: a < b, ast.LtE: a <= b, ast.Gt: a > b, ast.GtE: a >= b}[type(op)]       # lexicographic, as Python compares sequences
             except TypeError:
                 raise Raised(Abs('TypeError'), node)
+        if getattr(self.port, 'name', 'py') == 'js' and isinstance(a, list) and isinstance(b, list) and all(isinstance(x, (str, int)) and not isinstance(x, bool) for x in a + b):
+            # relational operators convert arrays to their comma-joined text
+            a, b = ','.join(str(x) for x in a), ','.join(str(x) for x in b)
         if isinstance(a, str) and isinstance(b, str) and all(ord(ch) < 0xD800 for ch in a + b):
             # code-unit order of two texts (the same in both languages below the surrogate range)
             return {ast.Lt: a < b, ast.LtE: a <= b, ast.Gt: a > b, ast.GtE: a >= b}[type(op)]
